@@ -130,8 +130,11 @@ def item_onoff(repo):
             for k, v in zip(n.keys, n.values):
                 kk = ast.literal_eval(k)
                 vv = ast.literal_eval(v)
-                d.append([type(kk).__name__, str(kk), bool(vv)])
-            return sorted(d)        # a lookup table: the order of its entries means nothing
+                # a lookup table: 0 / False and 1 / True are ONE key each (equal and equally hashed), the order of
+                # the entries means nothing, a key spelled twice means nothing
+                d.append(["int", str(int(kk)), bool(vv)] if isinstance(kk, (bool, int)) else
+                         [type(kk).__name__, str(kk), bool(vv)])
+            return sorted([list(x) for x in {tuple(e) for e in d}])
     raise ValueError("no dict")
 
 
